@@ -123,8 +123,21 @@ class Class(object):
     def key(self):
         return self.module.relpath + '::' + self.name
 
+    def find(self, name, _depth=0):
+        """method `name` of this class or of the first base class (same module) that defines it"""
+        if name in self.methods:
+            return self.methods[name]
+        if _depth > 8:
+            return None
+        for b in self.bases:
+            if isinstance(b, ast.Name) and b.id in self.module.classes and self.module.classes[b.id] is not self:
+                r = self.module.classes[b.id].find(name, _depth + 1)
+                if r is not None:
+                    return r
+        return None
+
     def init(self):
-        return self.methods.get('__init__')
+        return self.find('__init__')
 
     def __repr__(self):
         return '<Class %s>' % self.key
